@@ -79,10 +79,10 @@ Qed.
 
 Lemma line_step_shift k p line li col need rest offs r :
   (p = EmptyString \/ line <> EmptyString) ->
-  line_step line li col need rest offs = Some r ->
-  line_step (p ++ line) (li + k) (col + slen p) need rest (add_offset k (slen p) offs) = Some (shift_res k (slen p) r).
+  line_step false line li col need rest offs = Some r ->
+  line_step false (p ++ line) (li + k) (col + slen p) need rest (add_offset k (slen p) offs) = Some (shift_res k (slen p) r).
 Proof.
-  intros Hp H. unfold line_step in *. rewrite slen_app'.
+  intros Hp H. unfold line_step, scan in *. rewrite slen_app'.
   destruct (slen line =? 0) eqn:E.
   - apply Z.eqb_eq in E. assert (line = EmptyString) by (destruct line; [reflexivity|rewrite slen_String in E; pose proof (slen_nonneg line); lia]).
     subst line. destruct Hp as [Hp|Hp]; [|contradiction]. subst p. cbn.
@@ -100,8 +100,8 @@ Proof. destruct offs; cbn; split; intros; congruence. Qed.
 Lemma npr_loop_shift k p : forall ls prev prev' li col minCol need rest offs brk o,
   (p = EmptyString \/ Forall (fun l => l <> EmptyString) ls) ->
   (brk = false \/ prev' = prev + slen p) ->
-  npr_loop ls prev li col minCol need rest offs brk = Ok o ->
-  npr_loop (map (fun l => (p ++ l)%string) ls) prev' (li + k) (col + slen p) (minCol + slen p) need rest
+  npr_loop false ls prev li col minCol need rest offs brk = Ok o ->
+  npr_loop false (map (fun l => (p ++ l)%string) ls) prev' (li + k) (col + slen p) (minCol + slen p) need rest
            (add_offset k (slen p) offs) brk = Ok (add_offset k (slen p) o).
 Proof.
   induction ls as [|line more IH]; intros prev prev' li col minCol need rest offs brk o Hp Hprev H.
@@ -115,7 +115,7 @@ Proof.
       replace (li + k - 1) with (li - 1 + k) by lia. replace (prev + slen p + 1) with (prev + 1 + slen p) by lia.
       apply add_offset_append. }
     rewrite Ho1.
-    destruct (line_step line li col need rest offs1) as [r|] eqn:Els; [|discriminate].
+    destruct (line_step false line li col need rest offs1) as [r|] eqn:Els; [|discriminate].
     assert (Hp1 : p = EmptyString \/ line <> EmptyString).
     { destruct Hp as [Hp|Hp]; [left; exact Hp|right]. inversion Hp; assumption. }
     rewrite (line_step_shift k p line li col need rest offs1 r Hp1 Els).
@@ -197,18 +197,18 @@ Qed.
     and with a column >= 1. *)
 Theorem npr_shift_lemma : forall pre p lines n minCol pos,
   (p = EmptyString \/ Forall (fun l => l <> EmptyString) lines) ->
-  ascii_only p = true -> sn_anchor n = EmptyString -> 1 <= sn_col n ->
+  ascii_only p = true -> sn_anchor n = EmptyString -> sn_dq n = false -> 1 <= sn_col n ->
   new_position_range lines n minCol = Ok pos ->
   new_position_range (shift_lines pre p lines) (shift_node (Z.of_nat (List.length pre)) (slen p) n) (minCol + slen p)
   = Ok (add_offset (Z.of_nat (List.length pre)) (slen p) pos).
 Proof.
-  intros pre p lines n minCol pos Hp Hasc Hanc Hcol H. unfold new_position_range in *.
+  intros pre p lines n minCol pos Hp Hasc Hanc Hdq Hcol H. unfold new_position_range in *.
   unfold shift_node at 1. cbn [sn_value].
   destruct (sn_value n) as [|need rest]; [inversion H; subst; reflexivity|].
   assert (Hent : forall o, npr_entry lines n minCol need rest = Ok o ->
             npr_entry (shift_lines pre p lines) (shift_node (Z.of_nat (List.length pre)) (slen p) n) (minCol + slen p) need rest
             = Ok (add_offset (Z.of_nat (List.length pre)) (slen p) o)).
-  { intros o E. unfold npr_entry in *. unfold shift_node. cbn [sn_block sn_line sn_col sn_anchor]. unfold shift_lines.
+  { intros o E. unfold npr_entry in *. unfold shift_node. cbn [sn_block sn_line sn_col sn_anchor sn_dq]. rewrite Hdq in *. unfold shift_lines.
     destruct (sn_block n).
     - destruct (sn_line n + 1 <=? 0) eqn:El; [discriminate|]. apply Z.leb_gt in El.
       replace (sn_line n + Z.of_nat (List.length pre) + 1 <=? 0) with false by (symmetry; apply Z.leb_gt; lia).
@@ -231,7 +231,7 @@ Proof.
       assert (Hc0 : match map (fun l => (p ++ l)%string) ls with
                     | [] => sn_col n + slen p
                     | l :: _ => if slen l =? 0 then sn_col n + slen p
-                                else first_col l (mksn (sn_value n) (sn_line n + Z.of_nat (List.length pre)) (sn_col n + slen p) false (sn_anchor n))
+                                else first_col l (mksn (sn_value n) (sn_line n + Z.of_nat (List.length pre)) (sn_col n + slen p) false (sn_anchor n) false)
                     end =
                     match ls with [] => sn_col n | l :: _ => if slen l =? 0 then sn_col n else first_col l n end + slen p).
       { destruct ls as [|l more]; [reflexivity|]. cbn [map]. rewrite slen_app'.
